@@ -12,4 +12,6 @@ rc=$?
 for f in /verif/replays/$P-1-0.json /verif/replays/$P-1-tie.json /verif/replays/$P-1-build.json; do [ -f $f ] && { cp $f "$D/replay_example.json"; break; }; done
 cp /tmp/evidence_$P.bak /verif/evidence/$P.json 2>/dev/null
 cd /repo && git checkout -- . 
+# the files regenerated from the source are tracked: bring them back to the unchanged tree
+(cd /verif && python3 tools/extract.py > /dev/null 2>&1; python3 tools/rs2lean.py > /dev/null 2>&1)
 echo "rc=$rc"; grep -c "^VIOLATION" "$D/check_output.txt"; tail -1 "$D/check_output.txt" | cut -c1-250
